@@ -94,6 +94,10 @@ func c09Stress(w *core.Worker, i int) {
 					// read under FOR UPDATE through a join, then write what was read: FOR UPDATE must hold every table of the query
 					op.kind = "incfuvar"
 					prog = fmt.Sprintf("VAR @v; SELECT @v := counter.n FROM aux JOIN counter ON aux.id = counter.id FOR UPDATE; UPDATE counter SET n = @v + 1, m = @v + 1; INSERT INTO log VALUES (%d, %d); SELECT n FROM counter;", c, s)
+				case k == 4:
+					// as above with a statement in between that runs other program text: the hold must survive it
+					op.kind = "incfuvar"
+					prog = fmt.Sprintf("VAR @v; SELECT @v := n FROM counter FOR UPDATE; EXECUTE 'PRINT ''x'';'; UPDATE counter SET n = @v + 1, m = @v + 1; INSERT INTO log VALUES (%d, %d); SELECT n FROM counter;", c, s)
 				case k < 5:
 					op.kind = "incfu"
 					prog = fmt.Sprintf("SELECT n FROM counter FOR UPDATE; UPDATE counter SET n = n + 1, m = m + 1; INSERT INTO log VALUES (%d, %d); SELECT n FROM counter;", c, s)
